@@ -17,7 +17,7 @@ import (
 // C10 - parsing and evaluation are total: no panics, invalid input is rejected (language / glue part).
 //
 // Case line:   Q <stream> <runes>            runes: the filter as code points, hex, '.'-separated ('-' = empty)
-// Observation: Q <tokens> e<lexer errors> <verdicts> <pooled>
+// Observation: Q <tokens> e<lexer errors> <verdicts> <pooled> <entries>
 //
 //	tokens    k:start:len,...  of the real lexer (zitiql.NewZitiQlLexer), positions in runes, '-' if none
 //	verdicts  one per symbol-table typing of the identifier x (c10Typings; typing `store` of the bolt* streams: the
@@ -28,6 +28,7 @@ import (
 //	            V:<site>    parsed; evaluation panicked
 //	pooled    p1 if zitiql.Parse (pooled lexer/parser instances, after the history of this process) and a
 //	          freshly constructed lexer+parser agree on "syntax errors reported or not", else p0
+//	entries   accepted / rejected / panicked per public parsing entry point (c10_entry.go)
 func init() { commands["c10"] = runC10 }
 
 // ---- symbol tables -----------------------------------------------------------------------------
@@ -269,6 +270,9 @@ func c10Site() string {
 }
 
 func c10Verdict(filter string, ty c10Typing) (verdict string) {
+	if ty.store && ty.name == c10CursorTyping.name {
+		return c10cVerdict(filter)
+	}
 	if ty.store {
 		return c10sVerdict(filter)
 	}
@@ -462,6 +466,14 @@ func c10Sentences() []string {
 	return out
 }
 
+// c10ShortSentences: valid filters over the fixed symbols of c10Table (no x), one per construct of the grammar
+var c10ShortSentences = []string{"a", "a = true", "i = 1", "a and b", "not a", "(a)", "i in [1, 2]", `s = "x"`, "isEmpty(ss)", "a sort by s desc", "a limit 1", "a skip 1 limit none",
+	`anyOf(ss) = "s"`, "d = datetime(2032-09-03T15:36:50Z)", "count(from ss where a) > 1", "i between 1 and 2", `s contains "x" or f >= 1.5`}
+
+// c10ForeignChars: punctuation, symbols, control and non-ASCII characters (whether one is foreign at a position is
+// decided by the real lexer and by the lexer model, not here)
+var c10ForeignChars = []rune("#$;\\^~%@`?|&*{}/+:'\x00\x7f§é€")
+
 var c10TokenPool = []string{"x", "y", "s", "b", " ", " ", "=", "!=", "<", ">=", "1", "1.5", "-2", `"s"`, "null", "true", "and", "or", "not", "(", ")", "[", "]", ",",
 	"in", "not in", "between", "not between", "contains", "icontains", "anyOf", "allOf", "count", "isEmpty", "from", "where", "sort", "by", "asc", "desc", "skip", "limit", "none",
 	"datetime(2032-09-03T15:36:50Z)", "#", "'", "\"", "\\", "é", ".", "-", "e", "datetime("}
@@ -511,6 +523,7 @@ func runC10(o *opts) error {
 	defer impl.close()
 	defer c10sCleanup()
 	r := newRng(o.seed)
+	c10cDeep = o.thorough() || o.get("replaycase", "") != ""
 	stats := map[string]int{}
 	// the lexer's default ConsoleErrorListener (still attached in the shipped glue) writes to os.Stderr
 	if devnull, err := os.OpenFile(os.DevNull, os.O_WRONLY, 0); err == nil {
@@ -554,7 +567,7 @@ func runC10(o *opts) error {
 					for _, ty := range j.typings {
 						vs = append(vs, c10Verdict(filter, ty))
 					}
-					j.implLine = fmt.Sprintf("Q %s e%d %s %s", toks, nerr, strings.Join(vs, "/"), c10Pooled(filter))
+					j.implLine = fmt.Sprintf("Q %s e%d %s %s %s", toks, nerr, strings.Join(vs, "/"), c10Pooled(filter), c10eEntries(filter))
 				}
 			}()
 		}
@@ -598,7 +611,7 @@ func runC10(o *opts) error {
 			}
 			var tys []c10Typing
 			for _, n := range strings.Split(f[3], "/") {
-				for _, ty := range append([]c10Typing{c10StoreTyping}, c10Typings...) {
+				for _, ty := range append([]c10Typing{c10StoreTyping, c10CursorTyping}, c10Typings...) {
 					if ty.name == n {
 						tys = append(tys, ty)
 					}
@@ -631,6 +644,18 @@ func runC10(o *opts) error {
 			emitS("sent", "b or "+s+" sort by s skip 1 limit 2", c10Typings)
 		case 3:
 			emitS("sent", "  "+strings.ToUpper(s)+"\t", c10Typings)
+		}
+	}
+
+	// stream 1b: short valid sentences with ONE foreign character inserted at every position, first character
+	// first: where the lexer does not recognise the character, dropping it leaves a valid filter, so that only the
+	// lexer's error report stands between the text and its silent acceptance (inside a string literal it is data)
+	for _, ch := range c10ForeignChars {
+		for _, s := range c10ShortSentences {
+			rs := []rune(s)
+			for pos := 0; pos <= len(rs); pos++ {
+				emit("ins", append(append(append([]rune{}, rs[:pos]...), ch), rs[pos:]...), []c10Typing{c10Typings[0], c10Typings[3]})
+			}
 		}
 	}
 
@@ -720,7 +745,12 @@ func runC10(o *opts) error {
 		}
 		emitS("boltmut", c10sMutate(r, toks), storeOnly)
 	}
+	// cursor-provider stream (c10_cursors.go): filters for every scanner x the whole provider matrix
+	for _, f := range c10cFilters() {
+		emitS("qcur", f, []c10Typing{c10CursorTyping})
+	}
 	flush()
+	stats["cursor_providers"] = len(c10sEnv().roots[0].prov)
 	stats["typings"] = len(c10Typings)
 	writeJSON(o.out, "stats.json", stats)
 	return nil
